@@ -239,7 +239,7 @@ def check_config(config: dict) -> None:
             "lambda_minus_one interface must be less than the first interface!"
         )
 
-    if quantis and lambda_minus_one:
+    if quantis and lambda_minus_one is not False:
         raise TOMLConfigError("Cannot run quantis with lambda_minus_one!")
 
     if not isinstance(n_workers, int):
